@@ -1190,6 +1190,7 @@ impl<'a> Message<'a> {
             data: self.data,
             data_i: MessageHeader::LENGTH,
             seen_message_integrity: false,
+            sha256_may_follow: false,
         }
     }
 
@@ -1367,35 +1368,46 @@ pub struct MessageAttributesIter<'a> {
     data: &'a [u8],
     data_i: usize,
     seen_message_integrity: bool,
+    sha256_may_follow: bool,
 }
 
 impl<'a> Iterator for MessageAttributesIter<'a> {
     type Item = RawAttribute<'a>;
 
     fn next(&mut self) -> Option<Self::Item> {
-        if self.data_i >= self.data.len() {
-            return None;
-        }
-
-        let Ok(attr) = RawAttribute::from_bytes(&self.data[self.data_i..]) else {
-            self.data_i = self.data.len();
-            return None;
-        };
-        let padded_len = attr.padded_len();
-        self.data_i += padded_len;
-        if self.seen_message_integrity {
-            if attr.get_type() == Fingerprint::TYPE {
-                return Some(attr);
+        loop {
+            if self.data_i >= self.data.len() {
+                return None;
             }
-            return None;
-        }
-        if attr.get_type() == MessageIntegrity::TYPE
-            || attr.get_type() == MessageIntegritySha256::TYPE
-        {
-            self.seen_message_integrity = true;
-        }
 
-        Some(attr)
+            let Ok(attr) = RawAttribute::from_bytes(&self.data[self.data_i..]) else {
+                self.data_i = self.data.len();
+                return None;
+            };
+            let padded_len = attr.padded_len();
+            self.data_i += padded_len;
+            if self.seen_message_integrity {
+                // After an integrity attribute, only a MESSAGE-INTEGRITY-SHA256 that directly
+                // follows a MESSAGE-INTEGRITY, and the FINGERPRINT, are exposed.  Anything else
+                // is skipped rather than ending the iteration so that a later FINGERPRINT is
+                // still found.
+                let directly_follows = std::mem::replace(&mut self.sha256_may_follow, false);
+                if attr.get_type() == Fingerprint::TYPE
+                    || (directly_follows && attr.get_type() == MessageIntegritySha256::TYPE)
+                {
+                    return Some(attr);
+                }
+                continue;
+            }
+            if attr.get_type() == MessageIntegrity::TYPE {
+                self.seen_message_integrity = true;
+                self.sha256_may_follow = true;
+            } else if attr.get_type() == MessageIntegritySha256::TYPE {
+                self.seen_message_integrity = true;
+            }
+
+            return Some(attr);
+        }
     }
 }
 
